@@ -25,6 +25,8 @@ KNOWN_DESCRIPTOR = ("Identity: metrics, the split-off part of a metric has an em
                     "empty, temporality/monotonicity default) and nothing else of its context differs")
 KNOWN_SHELL = ("SizeBound: metrics, bytes sizer, the oversized part carries an unnamed metric shell without data points "
                "(left by an extraction that took no data point)")
+KNOWN_PREFIX = ("SizeBound: metrics, bytes sizer, the part holds data points split off a metric and exceeds max_size by at most "
+                "2 bytes (length prefix of the nested data point list not budgeted)")
 KNOWN_ATTACH = ("DoneErrIff: request reported failed although no part holding its data failed; the failed part is the first "
                 "result of the MergeSplit with the held batch and holds no item of the request")
 
@@ -265,6 +267,10 @@ def report(c, scripts, results, viol, ctxd, trace_path):
                 elif s["signal"] == "metrics" and s["sizer"] == "bytes" and ev.get("shells", 0) > 0:
                     sig = KNOWN_SHELL
                     what += " (the part carries %d unnamed metric shell(s) without data points)" % ev["shells"]
+                elif (s["signal"] == "metrics" and s["sizer"] == "bytes" and 0 < ev["size"] - s["max"] <= 2 and
+                      any(ctx_groups(ctxd.get(it["c"], "")).get("metric", "x").startswith('name="" ') for it in ev["items"])):
+                    sig = KNOWN_PREFIX
+                    what += " (the part holds data points split off a metric; excess %d bytes)" % (ev["size"] - s["max"])
             elif cl == "DoneErrIff":
                 what = head + ": " + json.dumps(v["detail"])[:300]
                 r, err = v["detail"][0], v["detail"][1]
